@@ -9,6 +9,7 @@ result).
 import Martian.Refactor
 import Proofs.RefactorRename
 import Proofs.RefactorRemove
+import Proofs.RefactorRemoveOutput
 
 namespace Props.C19
 open Martian.Refactor
@@ -110,6 +111,28 @@ theorem remove_input_only (x q : String) (p : Program) (c : Callable)
 example : "U" ∉ unusedCalls exProg exP ∧
     unusedCalls { exProg with callables := [exS, exT, { exP with ret := [], retain := [] }] }
       { exP with ret := [], retain := [] } = ["V"] := by decide
+
+/-- **remove_output_unused.**  Removing an output parameter that no binding,
+modifier, return or retain refers to changes nothing but the parameter itself
+(for a stage also its retain entry; for a pipeline also its return binding and
+the inputs this leaves unbound, with their bindings in callers): no expression
+anywhere is rewritten, no call modifier or retain is dropped, no other
+pipeline loses an output. -/
+theorem remove_output_unused (p : Program) (x o : String)
+    (h : outputUnreferenced x o p = true) :
+    removeOutput x o p = removeOutputPlain x o p := by
+  exact Proofs.Refactor.remove_output_unused p x o h
+
+/-- non-vacuity: output `o` of `T` is unreferenced once `V` no longer reads `U.o`;
+and the referenced case really is different (the reference becomes `null`). -/
+example :
+    let P' : Callable := { exP with calls := [⟨"S", "S", "", [⟨"a", .ref ⟨.self, "a", []⟩⟩], []⟩,
+                                              ⟨"U", "T", "", [⟨"a", .ref ⟨.call, "S", ["o"]⟩⟩], []⟩] ,
+                                    ret := [⟨"r", .ref ⟨.call, "S", ["o"]⟩⟩] }
+    outputUnreferenced "T" "o" ⟨[exS, exT, P'], none⟩ = true
+    ∧ removeOutput "T" "o" ⟨[exS, exT, P'], none⟩ ≠ ⟨[exS, exT, P'], none⟩
+    ∧ outputUnreferenced "T" "o" exProg = false
+    ∧ removeOutput "T" "o" exProg ≠ removeOutputPlain "T" "o" exProg := by decide
 
 /-- **fixpoint_terminates.**  The removal loop of `Refactor` (`removeUnusedCalls`
 / `removeUnusedOutputs` alternated until nothing changes), as run by
